@@ -123,7 +123,12 @@ class MacroInterp:
             return Lang.text(str(node.value))
         if isinstance(node, nodes.Name):
             if node.name in env:
-                return env[node.name]
+                v = env[node.name]
+                if isinstance(v, tuple) and v and v[0] == "lazy":
+                    # {% set x = e %}: x is re-evaluated under the CURRENT refinement of the variables e mentions (jinja
+                    # variables are immutable, so this is the value x has; it keeps x correlated with later tests on them)
+                    return self.expr(v[1], {k: w for k, w in env.items() if k != node.name})
+                return v
             raise OutOfReach(f"template variable {node.name} has no language")
         if isinstance(node, nodes.Filter):
             L = self.expr(node.node, env)
@@ -172,6 +177,8 @@ class MacroInterp:
             if test.ops[0].op == "notin":
                 P = ~P
             L = env[name]
+            if isinstance(L, tuple):
+                L = self.expr(nodes.Name(name, "load"), env)
             et = dict(env, **{name: L & P}) if not (L & P).is_empty() else None
             ef = dict(env, **{name: L - P}) if not (L - P).is_empty() else None
             return et, ef
@@ -200,6 +207,10 @@ class MacroInterp:
                 lf = self.body(st.else_, ef) if ef is not None else None
                 both = [x for x in (lt, lf) if x is not None]
                 out = out + (both[0] | both[1] if len(both) == 2 else both[0])
+            elif isinstance(st, nodes.Assign) and isinstance(st.target, nodes.Name):
+                env = dict(env)
+                self.expr(st.node, env)                     # must be within reach now
+                env[st.target.name] = ("lazy", st.node)
             else:
                 raise OutOfReach(f"template statement {type(st).__name__}")
         return out
